@@ -123,3 +123,105 @@ func leakProgram(kind, order int, fat bool) *ir.Program {
 func leakID(kind, order int, fat bool) string {
 	return fmt.Sprintf("leak/kind=%d/order=%d/fat=%v", kind, order, fat)
 }
+
+// sharedBaseProgram: Base = NewSet(A); Ext = NewSet(Base, B) (Base first or last); injector 1 builds from
+// Ext plus C, injector 2 from Base plus B and D listed directly. Both are well-formed whatever the order of
+// the injectors; a provider map shared between Base and Ext makes the second one see B twice.
+func sharedBaseProgram(order int, baseFirst bool, extKind int) *ir.Program {
+	b := ir.NewBuilder()
+	p := b.Root
+	ta, tb, tc, td := b.Leaf(p, "A"), b.Leaf(p, "B"), b.Leaf(p, "C"), b.Leaf(p, "D")
+	pa := ir.FuncItem(&ir.Func{Pkg: p, Name: "PA", Out: ta})
+	var pb *ir.Item
+	switch extKind {
+	case 0:
+		pb = ir.FuncItem(&ir.Func{Pkg: p, Name: "PB", Params: []*ir.Type{ta}, Out: tb})
+	case 1:
+		pb = ir.ValueItem(tb, 9001)
+	case 2:
+		tb = b.Agg(p, "B", &ir.Field{Name: "F", T: ta})
+		pb = ir.StructItem(tb, "*")
+	}
+	base := &ir.Set{Pkg: p, Name: "Base", Items: []*ir.Item{pa}}
+	ext := &ir.Set{Pkg: p, Name: "Ext"}
+	if baseFirst {
+		ext.Items = []*ir.Item{ir.SetRef(base), pb}
+	} else {
+		ext.Items = []*ir.Item{pb, ir.SetRef(base)}
+	}
+	inj1 := &ir.Injector{Name: "Init1", Out: tc, Items: []*ir.Item{ir.SetRef(ext), ir.FuncItem(&ir.Func{Pkg: p, Name: "PC", Params: []*ir.Type{ta, tb}, Out: tc})}}
+	inj2 := &ir.Injector{Name: "Init2", Out: td, Items: []*ir.Item{ir.SetRef(base), pb, ir.FuncItem(&ir.Func{Pkg: p, Name: "PD", Params: []*ir.Type{tb, ta}, Out: td})}}
+	inj3 := &ir.Injector{Name: "Init3", Out: ta, Items: []*ir.Item{ir.SetRef(base)}}
+	prog := &ir.Program{Root: p}
+	switch order {
+	case 0:
+		prog.Injectors = []*ir.Injector{inj1, inj2, inj3}
+	case 1:
+		prog.Injectors = []*ir.Injector{inj2, inj1, inj3}
+	default:
+		prog.Injectors = []*ir.Injector{inj3, inj2, inj1}
+	}
+	return prog
+}
+
+// deepChainProgram: the injector's package mentions only package mid; mid.Set includes deep.Set (and deeper.Set),
+// which the injector's package never imports itself.
+func deepChainProgram(levels int, viaFunc bool) *ir.Program {
+	b := ir.NewBuilder()
+	p := b.Root
+	var pkgs []*ir.Pkg
+	for i := 0; i < levels; i++ {
+		pkgs = append(pkgs, &ir.Pkg{Name: fmt.Sprintf("l%d", i), Rel: fmt.Sprintf("l%d", i)})
+	}
+	// level i's provider needs level i+1's type; level i's set includes level i+1's set
+	var prev *ir.Type
+	var prevSet *ir.Set
+	for i := levels - 1; i >= 0; i-- {
+		t := b.Leaf(pkgs[i], "T")
+		var deps []*ir.Type
+		if prev != nil {
+			deps = []*ir.Type{prev}
+		}
+		items := []*ir.Item{ir.FuncItem(&ir.Func{Pkg: pkgs[i], Name: "New", Params: deps, Out: t})}
+		if prevSet != nil {
+			items = append(items, ir.SetRef(prevSet))
+		}
+		prevSet = &ir.Set{Pkg: pkgs[i], Name: "Set", Items: items}
+		prev = t
+	}
+	inj := &ir.Injector{Name: "Init", Out: prev, Items: []*ir.Item{ir.SetRef(prevSet)}}
+	_ = viaFunc
+	return &ir.Program{Root: p, Injectors: []*ir.Injector{inj}}
+}
+
+// twoSelectionsProgram: two injectors use wire.Struct on the same struct with different selections of
+// fields that have the same type.
+func twoSelectionsProgram(order int, ptr bool) *ir.Program {
+	b := ir.NewBuilder()
+	p := b.Root
+	lim := b.Leaf(p, "Lim")
+	other := b.Leaf(p, "Other")
+	rng := b.Agg(p, "Range", &ir.Field{Name: "Min", T: lim}, &ir.Field{Name: "Max", T: lim}, &ir.Field{Name: "O", T: other})
+	pl := ir.FuncItem(&ir.Func{Pkg: p, Name: "PLim", Out: lim})
+	po := ir.FuncItem(&ir.Func{Pkg: p, Name: "POther", Out: other})
+	var out *ir.Type = rng
+	if ptr {
+		out = ir.Ptr(rng)
+	}
+	mk := func(name string, fields ...string) *ir.Injector {
+		items := []*ir.Item{ir.StructItem(rng, fields...), pl}
+		for _, f := range fields {
+			if f == "O" {
+				items = append(items, po)
+			}
+		}
+		return &ir.Injector{Name: name, Out: out, Items: items}
+	}
+	injs := []*ir.Injector{mk("InitMin", "Min"), mk("InitMax", "Max"), mk("InitMaxO", "Max", "O"), mk("InitMinO", "O", "Min")}
+	if order == 1 {
+		for i, j := 0, len(injs)-1; i < j; i, j = i+1, j-1 {
+			injs[i], injs[j] = injs[j], injs[i]
+		}
+	}
+	return &ir.Program{Root: p, Injectors: injs}
+}
